@@ -27,8 +27,11 @@ pub fn all(seed: u64) -> Vec<Scenario> {
     for p in ["C02", "C03", "C08", "C10"] {
         v.extend(shared::shared(p, seed));
     }
+    v.extend(shared::faults(seed));
     v.extend(shared::fees(seed));
     v.extend(shared::c04(seed));
     v.extend(shared::c05(seed));
+    v.extend(shared::liq("C06", seed));
+    v.extend(shared::liq("C07", seed));
     v
 }
